@@ -198,8 +198,10 @@ func keepMatches(key, pat string) bool {
 
 // havocs reports whether this derived state forgets (or weakens) component key relative to prev.
 func (s *state) havocs(key string, meta keyMeta) bool {
-	if meta.Scratch {
-		return s.havocKeys[key] // only an explicit assignment (e.g. inside a loop being cut) changes it
+	if meta.Scratch || key == "G:held" {
+		// scratch: only an explicit assignment (e.g. inside a loop being cut) changes it.
+		// held (lock set): code outside the contracts is assumed to return with the locks it was called with.
+		return s.havocKeys[key]
 	}
 	hav := s.havocKeys[key] || (s.havocHeap && isHeapKey(key)) || (s.havocGhst && meta.Ghost && (!meta.Local || s.havocLocal) && key != "G:$alloc")
 	if hav && s.havocHeap && isHeapKey(key) && !s.havocKeys[key] {
